@@ -353,41 +353,45 @@ func (nz *Normalizer) plan(P *Program) (map[string][]textEdit, int) {
 		if nz.dropped[desc] {
 			continue
 		}
+		allSites := true
 		for _, s := range c.sites {
 			e, imp, why := nz.siteEdit(fset, s)
 			if why != "" {
-				ok = false
+				allSites = false
 				if os.Getenv("VERIF_NF_DEBUG") != "" {
 					fmt.Printf("  NF skip %s at %s: %s\n", funcKey(c.fn), fset.Position(s.call.Pos()), why)
 				}
-				break
+				continue
 			}
 			e.site = desc
 			file := fset.Position(s.file.Pos()).Filename
-			if overlaps(file, e.start, e.end) {
-				ok = false
-				break
-			}
+			clash := overlaps(file, e.start, e.end)
 			for _, prev := range es {
 				if file == prev.site2 && e.start < prev.end && prev.start < e.end {
-					ok = false
+					clash = true
 				}
+			}
+			if clash {
+				// another edit of this pass covers the same statement: this site waits for the next pass
+				allSites = false
+				continue
 			}
 			e.site2 = file
 			es = append(es, e)
 			imps = append(imps, imp)
 		}
-		if !ok {
+		if len(es) == 0 {
 			continue
 		}
-		// deletion of the declaration
+		_ = ok
+		// deletion of the declaration (only when every call site is inlined in this pass)
 		cfile := fset.Position(c.file.Pos()).Filename
 		ds := c.decl.Pos()
 		if c.decl.Doc != nil {
 			ds = c.decl.Doc.Pos()
 		}
 		dstart, dend := fset.Position(ds).Offset, fset.Position(c.decl.End()).Offset
-		if overlaps(cfile, dstart, dend) {
+		if allSites && overlaps(cfile, dstart, dend) {
 			continue
 		}
 		for i, e := range es {
@@ -400,8 +404,10 @@ func (nz *Normalizer) plan(P *Program) (map[string][]textEdit, int) {
 				imports[e.site2][name] = path
 			}
 		}
-		edits[cfile] = append(edits[cfile], textEdit{start: dstart, end: dend, text: "", site: desc})
-		used[cfile] = append(used[cfile], span{dstart, dend})
+		if allSites {
+			edits[cfile] = append(edits[cfile], textEdit{start: dstart, end: dend, text: "", site: desc})
+			used[cfile] = append(used[cfile], span{dstart, dend})
+		}
 		n++
 	}
 	// imports whose every use sat in a deleted declaration are kept alive with a blank reference
@@ -547,6 +553,7 @@ func (nz *Normalizer) siteEdit(fset *token.FileSet, s *nfSite) (textEdit, map[st
 	// operands that are evaluated before the call in the same statement and are not trivially pure are
 	// hoisted into temporaries, in evaluation order (outer levels first), so that the order of calls is kept
 	var hoistLevels [][]ast.Expr
+	var scWrappers []*ast.BinaryExpr // short-circuit expressions (innermost first) whose right operand holds the call
 	for i := len(s.stack) - 1; i >= 0; i-- {
 		p := s.stack[i]
 		if st, ok := p.(ast.Stmt); ok {
@@ -569,7 +576,11 @@ func (nz *Normalizer) siteEdit(fset *token.FileSet, s *nfSite) (textEdit, map[st
 		case *ast.BinaryExpr:
 			if x.Op == token.LAND || x.Op == token.LOR {
 				if x.X != child {
-					return textEdit{}, nil, "right operand of a short-circuit operator"
+					// `L || call(…)`: rewritten as  t := L; if !t { <inlined>; t = R' }  (see the assembly)
+					if nres != 1 || len(hoistLevels) > 0 {
+						return textEdit{}, nil, "right operand of a short-circuit operator"
+					}
+					scWrappers = append(scWrappers, x)
 				}
 			} else if x.Y == child && !isSimpleExpr(x.X) {
 				level = append(level, x.X)
@@ -635,6 +646,9 @@ func (nz *Normalizer) siteEdit(fset *token.FileSet, s *nfSite) (textEdit, map[st
 			hoistLevels = append(hoistLevels, level)
 		}
 		child = p
+	}
+	if len(scWrappers) > 0 && len(hoistLevels) > 0 {
+		return textEdit{}, nil, "short-circuit operand together with operands to hoist"
 	}
 	var hoists []ast.Expr
 	for i := len(hoistLevels) - 1; i >= 0; i-- {
@@ -1037,7 +1051,7 @@ func (nz *Normalizer) siteEdit(fset *token.FileSet, s *nfSite) (textEdit, map[st
 	// ---- guard specialisation (normalize_guard.go) ------------------------------------------------
 	var g *guardInfo
 	needGuard := false
-	if !tail && nres > 0 && nfGuards {
+	if !tail && nres > 0 && nfGuards && len(scWrappers) == 0 {
 		g = nz.detectGuard(fset, s, stmt, parent, src)
 	}
 
@@ -1220,7 +1234,29 @@ func (nz *Normalizer) siteEdit(fset *token.FileSet, s *nfSite) (textEdit, map[st
 	editEnd := off(stmt.End())
 	stext := string(src[off(stmt.Pos()):off(stmt.End())])
 	cs, ce := off(s.call.Pos())-off(stmt.Pos()), off(s.call.End())-off(stmt.Pos())
+	scRepl := ""
+	if len(scWrappers) > 0 && len(rtemps) == 1 {
+		curRepl := rtemps[0]
+		curS, curE := off(s.call.Pos()), off(s.call.End())
+		for k, x := range scWrappers {
+			name := fmt.Sprintf("%s_sc%d", id, k)
+			ltxt := string(src[off(x.X.Pos()):off(x.X.End())])
+			ys := off(x.Y.Pos())
+			rtxt := string(src[ys:curS]) + curRepl + string(src[curE:off(x.Y.End())])
+			cond := name
+			if x.Op == token.LOR {
+				cond = "!" + name
+			}
+			pre = name + " := " + ltxt + "\nif " + cond + " {\n" + pre + name + " = " + rtxt + "\n}\n"
+			curRepl, curS, curE = name, off(x.Pos()), off(x.End())
+		}
+		scRepl = curRepl
+		cs, ce = curS-off(stmt.Pos()), curE-off(stmt.Pos())
+	}
 	withRepl := func(repl string) string {
+		if scRepl != "" {
+			repl = scRepl
+		}
 		rs := append([]spanRepl{{cs, ce, repl}}, hoistRepls...)
 		sort.Slice(rs, func(a, b int) bool { return rs[a].s > rs[b].s })
 		out := stext
